@@ -228,12 +228,22 @@ fn iter_multiset(line: &str) -> Option<(usize, Vec<String>)> {
 }
 
 pub fn run_seq(seq: &Seq, dir: &Path, driver: &mut Option<Driver>, opts: &RunOpts) -> Outcome {
+    run_seq_with_state(seq, dir, driver, opts, BTreeMap::new())
+}
+
+/// like `run_seq`, but map m0 already exists on disk (and in the driver) with contents `oracle0`
+pub fn run_seq_with_state(seq: &Seq, dir: &Path, driver: &mut Option<Driver>, opts: &RunOpts, oracle0: Oracle) -> Outcome {
+    let preexisting = !oracle0.is_empty() || dir.join("m0.htx").exists();
     let mut imp = if opts.child { Exec::Child(ChildExec::new(dir)) } else { Exec::In(Impl::new(dir)) };
     let mut diffs: Vec<Diff> = Vec::new();
     let mut cov = Cov::default();
     let mut transcript = Vec::new();
     let mut oracles: BTreeMap<usize, Oracle> = BTreeMap::new();
     let mut model_maps: BTreeMap<usize, bool> = BTreeMap::new(); // map id -> cmp allowed
+    if preexisting {
+        oracles.insert(0, oracle0);
+        model_maps.insert(0, true);
+    }
     let mut cur: usize = 0;
     let mut dead = false;
     let mut prev_dec: BTreeMap<usize, crate::decoder::Decoded> = BTreeMap::new();
